@@ -24,3 +24,62 @@ Proof. intros. unfold shade. destruct (fix_transform m x y). reflexivity. Qed.
 Example C12_single_stop_lut : let l := build_lut [mk_gstop fhalf 4286611456] 256 in
   length l = 256%nat /\ nth 0 l 0 = 4286611456 /\ nth 100 l 0 = 4286611456 /\ nth 255 l 0 = 4286611456.
 Proof. vm_compute. repeat split. Qed.
+
+(* ---- the colour table (GradientProofs.v) ---- *)
+Require Import RQ.PixelProofs RQ.GradientProofs.
+
+(* (5) shape: 256 entries, each a premultiplied 32-bit word, for every stop list and every alpha *)
+Theorem C12_table_shape : forall stops alpha,
+  length (build_lut stops alpha) = 256%nat /\
+  forall i, wf_px (lut_at (build_lut stops alpha) i) /\ premul (lut_at (build_lut stops alpha) i) = true.
+Proof. exact GradientProofs.C12_lut_shape. Qed.
+Print Assumptions C12_table_shape.
+
+(* (6) "exactly the first / last stop colour beyond the ends": entries up to the first stop's index are the first stop's
+   colour, entries above every stop index (and entry 255 always) are the last stop's colour (premultiplied, with the
+   alpha the code applies) *)
+Theorem C12_table_before_first_stop : forall stops alpha j, stops <> [] -> 0 <= alpha <= 256 -> stops_wf stops ->
+  0 < stop_index stops 0 -> 0 <= j <= stop_index stops 0 -> j <= 254 ->
+  lut_at (build_lut stops alpha) j = premultiply_t (stop_colour stops alpha 0).
+Proof. exact GradientProofs.C12_lut_first_stop. Qed.
+Print Assumptions C12_table_before_first_stop.
+Theorem C12_table_after_last_stop : forall stops alpha j, stops <> [] -> 0 <= alpha <= 256 -> stops_wf stops ->
+  (forall m, 0 <= m < nstops stops -> stop_index stops m < j) -> 0 <= j <= 255 ->
+  lut_at (build_lut stops alpha) j = premultiply_t (alpha_mul (gs_color (last_stop stops)) alpha).
+Proof. exact GradientProofs.C12_lut_last_stop. Qed.
+Print Assumptions C12_table_after_last_stop.
+Theorem C12_pad_beyond_the_end_is_the_last_stop : forall stops alpha m x y,
+  65280 <= fst (fix_transform m x y) ->
+  shade (ShLinear (build_lut stops alpha) SpreadPad m) x y = premultiply_t (alpha_mul (gs_color (last_stop stops)) alpha).
+Proof. exact GradientProofs.C12_linear_pad_end. Qed.
+Print Assumptions C12_pad_beyond_the_end_is_the_last_stop.
+
+(* (7) "piecewise-linear interpolation of the (unpremultiplied) stops, premultiplied": between two consecutive stops every
+   unpremultiplied channel is c0 + floor((c1-c0) w / 256) with the code's weight w, lies between the two stops'
+   channels, and is within 2 of the exact linear interpolation (within 1 is false: witness in GradientProofs.v) *)
+Theorem C12_table_between_stops : forall stops alpha k s j,
+  stops <> [] -> 0 <= alpha <= 256 -> stops_wf stops -> sorted_indices stops ->
+  0 <= k -> k + 1 < nstops stops -> run_start stops s ->
+  stop_index stops k <= s < stop_index stops (k + 1) -> s <= j <= stop_index stops (k + 1) -> j <= 254 ->
+  let d := stop_index stops (k + 1) - s in
+  let w := lut_weight d (j - s) in
+  exists u, lut_at (build_lut stops alpha) j = premultiply_t u /\ wf_px u /\ 1 <= d /\ 0 <= w <= 256 /\
+    chan_all (fun ch =>
+      let c0 := ch (gs_color (stop_at stops k)) * alpha / 256 in
+      let c1 := ch (gs_color (stop_at stops (k + 1))) * alpha / 256 in
+      ch u = c0 + (c1 - c0) * w / 256 /\
+      Z.min c0 c1 <= ch u <= Z.max c0 c1 /\
+      - 5 * d < 2 * (d * (ch u - c0) - (c1 - c0) * (j - s)) < 3 * d /\
+      c0 + (c1 - c0) * (j - s) / d - 2 <= ch u <= c0 + (c1 - c0) * (j - s) / d + 2).
+Proof. exact GradientProofs.C12_lut_between_stops. Qed.
+Print Assumptions C12_table_between_stops.
+
+(* (8) every gradient shader returns an entry of its table (or transparent, for a two-circle gradient outside its cone) *)
+Theorem C12_gradient_pixels_come_from_the_table : forall sh x y,
+  match sh with
+  | ShLinear lut _ _ | ShRadial lut _ _ | ShSweep lut _ _ _ _ => exists i, 0 <= i <= 255 /\ shade sh x y = lut_at lut i
+  | ShTwoCircle lut _ _ _ _ _ _ => shade sh x y = 0 \/ exists i, 0 <= i <= 255 /\ shade sh x y = lut_at lut i
+  | _ => True
+  end.
+Proof. exact GradientProofs.C12_shade_in_table. Qed.
+Print Assumptions C12_gradient_pixels_come_from_the_table.
